@@ -17,7 +17,14 @@ def prop(pid, **kw):
     PROPS[pid] = kw
 
 
+_TB = ["pyvc VC generator and its CPython builtin models", "z3 5.1 / cvc5 1.0.3 / z3 4.8.12"]
+
 prop("C12", level="proof",
-     explanation="Rule algebra laws as lemmas over the contracts of the verdict pipeline (Rule.assert_applies -> RuleMatcher.match "
-                 "-> the three graph searches); every function on that path is verified against its contract.",
-     trusted_base=["z3 5.1 / cvc5 1.0.3 / z3 4.8.12", "pyvc VC generator"])
+     level_text="Unbounded proof: every function between Rule.assert_applies and the three graph searches is verified against a contract "
+                "(pre/post, exact raises-iff, loop invariants), and the five algebra laws are lemmas over the verdict specification "
+                "those contracts establish; holds for all graphs, all subject/object sets, related or not.",
+     level_note="Assumed: AbstractGraph accessor contracts (networkx DiGraph), dataclass field access, re.match as an uninterpreted "
+                "relation, the string-level meaning of name_anc/glob2regex (proved separately at string level), pyvc itself. "
+                "Partial correctness (termination of the worklist loops is not proved).",
+     explanation="Rule algebra laws as lemmas over the contracts of the verdict pipeline.",
+     trusted_base=_TB)
